@@ -274,8 +274,9 @@ def run_sharded(cmd, env, workdir, suite):
                 merged["extra"].setdefault(k, v)
         merged["extra"]["shards"] = NSHARDS
         json.dump(merged, open(os.path.join(workdir, suite + ".json"), "w"))
-    for _, _, sd in procs:
-        shutil.rmtree(sd, ignore_errors=True)
+    if rc == 0:
+        for _, _, sd in procs:
+            shutil.rmtree(sd, ignore_errors=True)
     return rc, outp, time.time() - t1
 
 
@@ -307,6 +308,15 @@ def run_suite(pid, suite, tier, seed, workdir, log, replay=None):
     r = {"suite": label, "ops": 0, "mismatches": [], "propfails": [], "stats": {}, "samples": [], "distinct": 0, "extra": {},
          "harness_rc": rc, "harness_out": outp[-2000:]}
     if rc != 0:
+        # a crash the harness could not recover from (a panic inside a goroutine started by the library, a runtime
+        # fatal error): the operation that was pending is the failing input
+        pend = sorted(glob.glob(os.path.join(workdir, "shard*", suite + ".pending")) + glob.glob(os.path.join(workdir, suite + ".pending")))
+        for pf in pend:
+            txt = open(pf, errors="replace").read().strip()
+            if txt:
+                m = re.search(r"(panic: [^\n]*|fatal error: [^\n]*)", outp)
+                r["propfails"].append({"kind": "crash", "desc": "the process died while executing this operation: " + (m.group(1) if m else "see harness output"),
+                                       "input": {"suite": label, "op": txt[:3000]}})
         return r
     meta = json.load(open(os.path.join(workdir, suite + ".json")))
     r["direct"] = meta.get("direct", 0)
